@@ -125,6 +125,67 @@ Theorem C18_check_ok_is_fixpoint_of_format : forall fmt1 src,
 Proof. exact evy_check_ok_iff. Qed.
 Print Assumptions C18_check_ok_is_fixpoint_of_format.
 
+(* ---------- several files in one invocation: evy fmt -c|-w f1 … fn ---------- *)
+(* fmt -c f1 … fn: no write under any schedule; only reads of listed files; status 0 is never a
+   lie about ANY of the files *)
+Theorem C18_check_multi_no_write_and_sound : forall fmt1 parts join v fl fs sched kill,
+  let r := run_files fmt1 parts join v CmdCheck fl fs sched kill in
+  r_fs r = fs /\
+  Forall (fun e => exists t, In t (map fst fl) /\ is_read_call t (fst e)) (r_trace r) /\
+  (r_status r = Exit 0 ->
+   Forall (fun t => exists f0, files fs t = Some f0 /\ check_ok fmt1 parts (f_data f0) = true) (map fst fl)).
+Proof. exact check_multi_no_write. Qed.
+Print Assumptions C18_check_multi_no_write_and_sound.
+
+(* without faults: status 0 iff EVERY file is formatted (whatever the order of the files) *)
+Theorem C18_check_truth_multi : forall fmt1 parts join v fl fs k,
+  (forall t, In t (map fst fl) -> files fs t <> None) ->
+  r_status (run_files fmt1 parts join v CmdCheck fl fs [] (5 * List.length fl + k)) =
+  if all_ok fmt1 parts fs fl then Exit 0 else Exit 1.
+Proof. exact check_truth_multi. Qed.
+Print Assumptions C18_check_truth_multi.
+
+(* fmt -w f1 … fn (distinct targets, temp names that are not targets): under every schedule and
+   kill point a prefix of the targets holds the complete formatted text (with the protocol's final
+   mode), at most one target is "old or formatted", every later target and every other path that
+   is not a temp name is untouched; status 0 implies all are formatted *)
+Theorem C18_fmt_w_multi_atomic : forall fmt1 parts join v fl fs sched kill,
+  NoDup (map fst fl) -> (forall p, In p fl -> ~ In (snd p) (map fst fl)) ->
+  let r := run_files fmt1 parts join v CmdWrite fl fs sched kill in
+  progress fmt1 parts join v fs (r_fs r) (map fst fl) /\ frame fl fs (r_fs r) /\
+  (r_status r = Exit 0 -> Forall (formatted_to fmt1 parts join v fs (r_fs r)) (map fst fl)) /\
+  r_status r <> OutOfFuel.
+Proof. exact fmt_w_multi_atomic. Qed.
+Print Assumptions C18_fmt_w_multi_atomic.
+
+(* read pointwise: each target independently holds its old entry or the formatted text *)
+Theorem C18_fmt_w_multi_each : forall fmt1 parts join v fs fs' ts t,
+  progress fmt1 parts join v fs fs' ts -> In t ts ->
+  files fs' t = files fs t \/ formatted_to fmt1 parts join v fs fs' t.
+Proof. exact progress_each. Qed.
+Print Assumptions C18_fmt_w_multi_each.
+
+(* an unparsable file among several: it and every file after it are untouched *)
+Theorem C18_multi_unparsable_untouched : forall fmt1 parts join v fs fs' pre t post f0,
+  progress fmt1 parts join v fs fs' (pre ++ t :: post) ->
+  files fs t = Some f0 -> fmt_all fmt1 parts join (f_data f0) = None ->
+  files fs' t = files fs t /\ forall t', In t' post -> files fs' t' = files fs t'.
+Proof. exact progress_unparsable. Qed.
+Print Assumptions C18_multi_unparsable_untouched.
+
+(* stdin mode (no files): -w is refused; -c exits 0 iff stdin = format stdin; plain fmt exits 0 iff
+   stdin parses and then prints exactly the formatted text *)
+Theorem C18_stdin_truth : forall fmt1 c input,
+  (fst (fmt_stdin fmt1 c input) = Exit 0 <->
+   match c with
+   | CmdWrite => False
+   | CmdCheck => fmt1 input = Some input
+   | CmdPlain => fmt1 input <> None
+   end) /\
+  (c = CmdPlain -> forall o, fmt1 input = Some o -> snd (fmt_stdin fmt1 c input) = o).
+Proof. intro fmt1. exact (stdin_truth fmt1 (fun _ => []) (fun _ _ => [])). Qed.
+Print Assumptions C18_stdin_truth.
+
 (* ---------- non-vacuity: concrete runs ---------- *)
 Definition ex_target : path := [97; 46; 101; 118; 121]%N.          (* a.evy *)
 Definition ex_tmp : path := [101; 118; 121; 49]%N.                  (* evy1 *)
@@ -190,3 +251,25 @@ Proof.
   intros e H. repeat (destruct H as [H|H]; [discriminate|]). exact H.
 Qed.
 Print Assumptions C18_fmt_w_no_temp_left_before_fix_refuted.
+
+(* two files, the unformatted one FIRST: check must say 1 (the order must not matter) *)
+Definition ex_t2 : path := [98; 46; 101; 118; 121]%N.                  (* b.evy *)
+Definition ex_fs2 (d1 d2 : bytes) : fsys :=
+  {| files := fun q => if str_eqb q ex_target then Some {| f_data := d1; f_mode := 420 |}
+                       else if str_eqb q ex_t2 then Some {| f_data := d2; f_mode := 384 |} else None;
+     dirw := true |}.
+Example C18_ex_check_two_files :
+  r_status (run_files ex_fmt evy_parts evy_join Current CmdCheck [(ex_target, ex_tmp); (ex_t2, ex_tmp)]
+              (ex_fs2 [120; 32; 121; 10]%N [120; 10]%N) [] 100) = Exit 1 /\
+  r_status (run_files ex_fmt evy_parts evy_join Current CmdCheck [(ex_target, ex_tmp); (ex_t2, ex_tmp)]
+              (ex_fs2 [120; 10]%N [120; 32; 121; 10]%N) [] 100) = Exit 1 /\
+  r_status (run_files ex_fmt evy_parts evy_join Current CmdCheck [(ex_target, ex_tmp); (ex_t2, ex_tmp)]
+              (ex_fs2 [120; 10]%N [121; 10]%N) [] 100) = Exit 0.
+Proof. vm_compute. repeat split; reflexivity. Qed.
+
+(* -w over [unparsable; unformatted]: exit 1 and the second file is not touched *)
+Example C18_ex_write_two_files :
+  let r := run_files ex_fmt evy_parts evy_join Current CmdWrite [(ex_target, ex_tmp); (ex_t2, ex_tmp)]
+             (ex_fs2 [63; 10]%N [120; 32; 121; 10]%N) [] 100 in
+  r_status r = Exit 1 /\ files (r_fs r) ex_t2 = Some {| f_data := [120; 32; 121; 10]%N; f_mode := 384 |}.
+Proof. vm_compute. split; reflexivity. Qed.
